@@ -308,6 +308,23 @@ Fixpoint cmds_eqb (a b : list cmd) : bool :=
   | _, _ => false
   end.
 
+(* GHOST only: syntactic identity of command lists (numerals compared by numerator and denominator) *)
+Definition q_same (a b : Q) : bool := (Qnum a =? Qnum b) && Pos.eqb (Qden a) (Qden b).
+Definition cmd_same (a b : cmd) : bool :=
+  match a, b with
+  | CSet c v k, CSet c' v' k' | CInc c v k, CInc c' v' k' => Nat.eqb c c' && q_same v v' && key_eqb k k'
+  | CWait d, CWait d' => q_same d d'
+  | CLabel i n, CLabel i' n' => (i =? i') && (n =? n')
+  | CJmp i, CJmp i' => i =? i'
+  | _, _ => false
+  end.
+Fixpoint cmds_same (a b : list cmd) : bool :=
+  match a, b with
+  | [], [] => true
+  | x :: a', y :: b' => cmd_same x y && cmds_same a' b'
+  | _, _ => false
+  end.
+
 (* add_node *)
 Fixpoint tr_node (n : node) (st : tstate) {struct n} : res (list cmd * tstate) :=
   match n with
@@ -326,10 +343,11 @@ Fixpoint tr_node (n : node) (st : tstate) {struct n} : res (list cmd * tstate) :
       let post := get_dependency_state st1 ds in
       if set_eqb pre post then
         (* GHOST: a loop of >= 2 passes replays cs1 from the state the body leaves behind; record whether translating
-           the body from that state would have given the same commands (the code never checks this) *)
+           the body from that state would have given the same commands, and whether the repetitions nested in the body
+           are stable in that second translation as well (the code never checks this) *)
         let stable := if count <=? 1 then true
                       else match tr_list body (with_label st1 (idx + 1)) with
-                           | Ok (cs1', _) => cmds_eqb cs1 cs1'
+                           | Ok (cs1', st1') => cmds_same cs1 cs1' && t_stable st1'
                            | Err _ => false
                            end in
         Ok (CLabel idx count :: cs1 ++ [CJmp idx], with_stable st1 (t_stable st1 && stable))
